@@ -6,8 +6,8 @@ coq/Gen/Murmur3Gen.v; Props/C08.v proves, for EVERY byte string, equality with t
 correspondence here.  (C) spec and generated code are evaluated inside Coq against the real functions; an independent
 Python transcription of the Java algorithm is the oracle for the directed search.
 """
-import hashlib, os
-from vf import py2coq, core
+import hashlib, json, os, subprocess
+from vf import py2coq, core, cybuild
 from vf.specs import murmur
 
 META = {
@@ -17,7 +17,9 @@ META = {
                   '(closed under the global context); C08_md5, C08_bytes for the other partitioners.',
     'level_note': 'Trusted: Coq kernel; py2coq; the transcription of MurmurHash/Murmur3Partitioner/RandomPartitioner (Model/Murmur3Spec.v); '
                   'hand model of body_and_tail (struct.unpack_from) and of MD5Token.hash_fn, tied by correspondence; hashlib.md5 is an abstract function; '
-                  'assumption `murmur3 is not None` (cassandra/murmur3.py always falls back to _murmur3). cmurmur3.c belongs to C07.',
+                  'assumption `murmur3 is not None` (cassandra/murmur3.py always falls back to _murmur3). cassandra/cmurmur3.c (used by Murmur3Token.hash_fn whenever the '
+                  'extension is built): hand model Model/Murmur3C.v with C integer semantics, proved equal to the spec for every key (C08_c_extension_*) and '
+                  'tied to the extension compiled from the working tree by correspondence on the same keys; gcc itself is not modelled.',
     'design_ref': 'DESIGN.md section 4, C08',
 }
 
@@ -120,7 +122,8 @@ def run(ctx):
                 'for each key: real _murmur3 / Murmur3Token.hash_fn / body_and_tail / MD5Token.hash_fn / BytesToken.hash_fn vs the Coq spec, the generated '
                 'Gallina and an independent Python transcription of the Java algorithm')
     cases, meta = [], []
-    for k in keys(ctx):
+    ks_all = keys(ctx)
+    for k in ks_all:
         got = _murmur3(k)
         tok = MD.Murmur3Token.hash_fn(k)
         ctx.case(k.hex(), nontrivial=len(k) > 0, sample={'key_hex': k.hex()[:80], 'len': len(k), 'murmur3': got, 'token': tok})
@@ -172,6 +175,55 @@ def run(ctx):
                              % ((k.hex()[:80] if isinstance(k, bytes) else k),), case={'key_hex': k.hex()} if isinstance(k, bytes) else list(k))
     except RuntimeError as e:
         ctx.proof_broken.append(('correspondence:Murmur3', str(e)[-600:]))
+    c_extension(ctx, ks_all)
+
+
+def c_extension(ctx, ks):
+    """cassandra/cmurmur3.c compiled from the working tree (content-hash cache shared with C07): the tokens it yields through
+    Murmur3Token.hash_fn for the same keys, against the Java-semantics oracle and against the Coq model of the C code."""
+    try:
+        built, sos, cached = cybuild.build_cached(core.REPO)
+    except Exception as e:
+        ctx.proof_broken.append(('build-extensions', str(e)[-800:]))
+        return
+    inp, outp = os.path.join(ctx.scratch, 'c08_keys.json'), os.path.join(ctx.scratch, 'c08_out.json')
+    json.dump([{'kind': 'murmur', 'key': k.hex()} for k in ks], open(inp, 'w'))
+    env = dict(os.environ, PYTHONPATH=built + ':' + os.path.join(core.VERIF, 'lib'), PYTHONHASHSEED='0')
+    p = subprocess.run(['/venv/bin/python', '-W', 'ignore', '-m', 'vf.c07_worker', inp, outp], env=env, cwd=ctx.scratch,
+                       stdout=subprocess.PIPE, stderr=subprocess.STDOUT, text=True, timeout=1800)
+    if p.returncode != 0:
+        ctx.violation('cmurmur3.crash', 'the compiled cmurmur3 extension kills the interpreter on the key corpus: %s' % p.stdout[-300:],
+                      case={'keys': [k.hex() for k in ks[:50]]}, theorem='C08_c_extension_token')
+        return
+    out = json.load(open(outp))
+    ctx.extra['c_extension'] = {'murmur3': out['build']['murmur3'], 'build_cached': cached, 'keys': len(ks)}
+    if 'cmurmur3' not in out['build']['murmur3']:
+        ctx.proof_broken.append(('build-identity', 'cassandra.murmur3.murmur3 is not the C extension in the compiled build: %r' % (out['build'],)))
+        return
+    cases, meta = [], []
+    for k, r in zip(ks, out['results']):
+        ctx.count('c_extension_keys', 'len%%16=%d' % (len(k) % 16))
+        if r and r[0] == 'exc':
+            ctx.violation('cmurmur3.raises', 'cmurmur3.murmur3(%s) raises %s' % (k.hex()[:64], r[1]), case={'key_hex': k.hex(), 'c_extension': True})
+            continue
+        h, tok = int(r[0]), int(r[1])
+        if h != java_murmur3(k):
+            ctx.violation('cmurmur3.differs-from-cassandra', 'cmurmur3.murmur3(%s) = %d, Cassandra MurmurHash gives %d' % (k.hex()[:64], h, java_murmur3(k)),
+                          case={'key_hex': k.hex(), 'c_extension': True}, expected=java_murmur3(k), actual=h, theorem='C08_c_extension_hash')
+        if tok != java_token(k):
+            ctx.violation('Murmur3Token.hash_fn.c-extension.differs-from-partitioner',
+                          'with the C extension Murmur3Token.hash_fn(%s) = %d, Murmur3Partitioner gives %d' % (k.hex()[:64], tok, java_token(k)),
+                          case={'key_hex': k.hex(), 'c_extension': True}, expected=java_token(k), actual=tok, theorem='C08_c_extension_token')
+        if len(k) <= 300:
+            cases.append('(murmur3_c %s =? %s) && (murmur3_token %s =? %s)' % (blist(k), zl(h), blist(k), zl(tok)))
+            meta.append(k)
+    try:
+        bad = ctx.coq_filter(['ByteWords', 'Murmur3Spec', 'Murmur3C'], '(fun b : bool => b)', cases, shard=80)
+        for i in bad[:10]:
+            ctx.disagreement('c-model-vs-extension', 'Coq model of cmurmur3.c disagrees with the compiled extension at key %s' % meta[i].hex()[:80],
+                             case={'key_hex': meta[i].hex(), 'c_extension': True})
+    except RuntimeError as e:
+        ctx.proof_broken.append(('correspondence:Murmur3C', str(e)[-600:]))
 
 
 def replay(ctx, rp):
@@ -182,6 +234,17 @@ def replay(ctx, rp):
     from cassandra.murmur3 import _murmur3
     from cassandra import metadata as MD
     k = bytes.fromhex(c['key_hex'])
+    if c.get('c_extension'):
+        built, sos, cached = cybuild.build_cached(core.REPO)
+        code = ('import sys; from cassandra import murmur3 as M; from cassandra.metadata import Murmur3Token as T; k = bytes.fromhex(sys.argv[1]); '
+                'print(M.murmur3.__module__, M.murmur3(k), T.hash_fn(k))')
+        p = subprocess.run(['/venv/bin/python', '-W', 'ignore', '-c', code, k.hex()], env=dict(os.environ, PYTHONPATH=built), cwd=ctx.scratch,
+                           stdout=subprocess.PIPE, stderr=subprocess.STDOUT, text=True, timeout=600)
+        print('replay (compiled cmurmur3) key=%s: %s; cassandra=%d partitioner=%d' % (k.hex()[:64], p.stdout.strip()[-200:], java_murmur3(k), java_token(k)))
+        f = p.stdout.split()
+        bad = p.returncode != 0 or len(f) < 3 or int(f[-2]) != java_murmur3(k) or int(f[-1]) != java_token(k)
+        print(('VIOLATION property=C08 replay=%s' % ctx.replay_path) if bad else 'not reproduced')
+        return 1 if bad else 0
     got, exp = _murmur3(k), java_murmur3(k)
     tok, etok = MD.Murmur3Token.hash_fn(k), java_token(k)
     md5tok, emd5 = MD.MD5Token.hash_fn(k), abs(int.from_bytes(hashlib.md5(k).digest(), 'big', signed=True))
